@@ -2058,6 +2058,75 @@ func ruleLocPairwise(c *Ctx, rule string) {
 			}
 		}
 	}
+	// the comparison may be made by a private helper that is handed the result (checkAdjacent(newSlice)) and
+	// whose error Add turns into a rejection
+	if n == 0 {
+		for _, b := range fn.Blocks {
+			for _, ins := range b.Instrs {
+				call, ok := ins.(*ssa.Call)
+				if !ok {
+					continue
+				}
+				h := call.Call.StaticCallee()
+				if h == nil || h.Pkg != fn.Pkg || h.Blocks == nil || h == fn || (h.Object() != nil && h.Object().Exported()) {
+					continue
+				}
+				// Add rejects when the helper reports an error
+				rejects := false
+				for _, r := range *call.Referrers() {
+					if bo, ok := r.(*ssa.BinOp); ok && bo.Op == token.NEQ && (isNilConst(bo.X) || isNilConst(bo.Y)) {
+						for _, rr := range *bo.Referrers() {
+							if ifi, ok := rr.(*ssa.If); ok && rejectsFrom(ifi.Block(), ifi.Block().Succs[0]) {
+								rejects = true
+							}
+						}
+					}
+				}
+				if !rejects {
+					continue
+				}
+				for pi, a := range call.Call.Args {
+					if a != result || pi >= len(h.Params) {
+						continue
+					}
+					prm := h.Params[pi]
+					isElem := func(v ssa.Value) bool {
+						lc, ok := v.(*ssa.Call)
+						if !ok {
+							return false
+						}
+						sf := lc.Call.StaticCallee()
+						if sf == nil || sf.Name() != "Location" || len(lc.Call.Args) != 1 {
+							return false
+						}
+						ld, ok := lc.Call.Args[0].(*ssa.UnOp)
+						if !ok || ld.Op != token.MUL {
+							return false
+						}
+						ia, ok := ld.X.(*ssa.IndexAddr)
+						return ok && ia.X == ssa.Value(prm)
+					}
+					for _, hb := range h.Blocks {
+						ifi, ok := hb.Instrs[len(hb.Instrs)-1].(*ssa.If)
+						if !ok {
+							continue
+						}
+						bo, ok := ifi.Cond.(*ssa.BinOp)
+						if !ok || (bo.Op != token.NEQ && bo.Op != token.EQL) {
+							continue
+						}
+						if isElem(bo.X) && isElem(bo.Y) {
+							for _, succ := range hb.Succs {
+								if rejectsFrom(hb, succ) {
+									n++
+								}
+							}
+						}
+					}
+				}
+			}
+		}
+	}
 	if n > 0 {
 		c.ok(rule, key, fn.Pos(), "neighbouring exons of the sorted result are rejected when their locations differ")
 	} else {
